@@ -161,6 +161,12 @@ def _project_cases():
     for order in ("fail-first", "fail-last", "fail-middle"):
         for n in (3, 30):
             out.append({"proj": "black-one-file-fails", "order": order, "n": n})
+    # tests that run under another working directory (monkeypatch.chdir / os.chdir) next to clean files of the same directory
+    for ll in (120, 60):
+        for n in (24, 30, 36):
+            for order in ("chdir-first", "chdir-last", "chdir-same-file"):
+                for how in ("monkeypatch", "os"):
+                    out.append({"proj": "chdir", "ll": ll, "n": n, "order": order, "how": how})
     # monorepo: black is configured in the repository root, a package in between has a metadata-only pyproject.toml
     for ll in (100, 60):
         for n in (24, 30, 36):
@@ -247,6 +253,40 @@ def _judge_project(c):
                 return ("harness", "nothing changed in %s" % name)
             if black.format_str(good, mode=mode) != good:
                 return ("clean-file-not-clean-afterwards", "black failed for %s only, but %s is no longer formatted:\n%s" % (order[0], name, good[-400:]))
+        return None
+    if c["proj"] == "chdir":
+        m2 = black.Mode(line_length=c["ll"])
+        b2 = "from inline_snapshot import snapshot\n\n\ndef test_table():\n    assert list(range(%d)) == snapshot([0])\n    assert 'a' == snapshot()\n" % c["n"]
+        if c["how"] == "monkeypatch":
+            t = "def test_cli(monkeypatch, tmp_path):\n    monkeypatch.chdir(tmp_path)\n    assert 'out' == snapshot()\n    assert [1, 2] == snapshot([1])\n"
+        else:
+            t = "import os\n\n\ndef test_cli(tmp_path):\n    old = os.getcwd()\n    os.chdir(tmp_path)\n    try:\n        assert 'out' == snapshot()\n        assert [1, 2] == snapshot([1])\n    finally:\n        os.chdir(old)\n"
+        chd = "from inline_snapshot import snapshot\n\n\n" + t
+        if c["how"] == "os":
+            chd = "import os\n\nfrom inline_snapshot import snapshot\n\n\n" + t.replace("import os\n\n\n", "")
+        clean2 = black.format_str(b2, mode=m2)
+        chd = black.format_str(chd, mode=m2)
+        if c["order"] == "chdir-same-file":
+            files = {"tests/test_a.py": black.format_str(chd + "\n\n" + b2.split("\n\n\n", 1)[1], mode=m2)}
+            watch = ["tests/test_a.py"]
+        else:
+            first, second = ("test_a_cli.py", "test_b_table.py") if c["order"] == "chdir-first" else ("test_z_cli.py", "test_b_table.py")
+            files = {"tests/" + first: chd, "tests/" + second: clean2}
+            watch = list(files)
+        files["pyproject.toml"] = "[tool.black]\nline-length = %d\n" % c["ll"]
+        d = plugin.mk_project(files)
+        try:
+            r = plugin.session(d, ["--inline-snapshot=create,fix", "tests"])
+            after = plugin.listing(d, text=True)
+        finally:
+            plugin.cleanup()
+        if plugin.internal_error(r["out"]):
+            return ("internal-error", r["out"][-600:])
+        for fn in watch:
+            if after[fn] == files[fn]:
+                return ("harness", "nothing changed in %s: %s" % (fn, r["out"][-300:]))
+            if black.format_str(after[fn], mode=m2) != after[fn]:
+                return ("clean-file-not-clean-afterwards", "line-length %d, %s:\n%s" % (c["ll"], fn, after[fn][-500:]))
         return None
     if c["proj"] == "monorepo":
         import os
